@@ -4,6 +4,7 @@
   (the instruction does not advance PC), `pc + 1` the address of the following instruction.
 -/
 import Z80.Lemmas.Block
+import Z80.Lemmas.Nest
 import Z80.Model.Step
 namespace Z80
 
@@ -47,6 +48,19 @@ theorem C14_wake_int (a : Arch) (b : UInt8) (hh : a.halt = true) (hn : a.nmi = f
   rw [h1]; unfold acceptInt; split
   · rfl
   · split <;> rfl
+
+/-- so that returning continues after the HALT: NMI wake-up followed by RETN lands on HALT + 1 with SP
+    restored (the two stack bytes must be writable) -/
+theorem C14_resume_after_halt (a : Arch) (len : UInt16) (hh : a.halt = true) (hn : a.nmi = true)
+    (h0 : a.bus.writable (a.reg.sp - 2)) (h1 : a.bus.writable (a.reg.sp - 2 + 1)) :
+    (exec .retn len (preDispatch a)).reg.pc = a.reg.pc + 1 ∧ (exec .retn len (preDispatch a)).reg.sp = a.reg.sp ∧
+    (exec .retn len (preDispatch a)).halt = false := by
+  rw [(C14_wake_nmi a hh hn).1]
+  refine ⟨?_, ?_, rfl⟩
+  · show (({ a with halt := false } : Arch).pushWord (a.reg.pc + 1)).bus.readWord (a.reg.sp - 2) = _
+    exact pushWord_spec { a with halt := false } (a.reg.pc + 1) h0 h1
+  · show a.reg.sp - 2 + 2 = a.reg.sp
+    apply UInt16.eq_of_toBitVec_eq; simp
 
 /-- a maskable request while interrupts are disabled does not end the halt -/
 theorem C14_masked (a : Arch) (b : UInt8) (hh : a.halt = true) (hn : a.nmi = false) (hi : a.iff1 = false) :
